@@ -39,6 +39,11 @@ theorem txRun_append (st : Bool × List Nat) (l1 l2 : List (FK × List Nat)) :
     | none => simp
     | some st' => simp [ih]
 
+/-- cutting the last `b.length` elements off `a ++ b` -/
+theorem take_length_sub_append {α : Type} (a b : List α) : (a ++ b).take ((a ++ b).length - b.length) = a := by
+  have : (a ++ b).length - b.length = a.length := by simp
+  rw [this]; simp
+
 def pendRest (t : StreamSt) : List Nat :=
   match t.pendW with
   | some p => p.rest
@@ -128,6 +133,31 @@ theorem TInv_stepDiscard {s s' : State} {k : Key} (hi : TInv s) (h : stepDiscard
 
 theorem TInv_stepDoFlush {s s' : State}  (hi : TInv s) (h : stepDoFlush s  = some s') : TInv s' := by
   unfold stepDoFlush at h
+  leaves h
+  all_goals (subst h; refine TInv_of_same (s := s) rfl rfl (by simp_all) ?_ hi; txsame)
+
+theorem TInv_stepWTake {s s' : State}  (hi : TInv s) (h : stepWTake s  = some s') : TInv s' := by
+  unfold stepWTake at h
+  leaves h
+  all_goals (subst h; refine TInv_of_same (s := s) rfl rfl (by simp_all) ?_ hi; txsame)
+
+theorem TInv_stepWDo {s s' : State}  (hi : TInv s) (h : stepWDo s  = some s') : TInv s' := by
+  unfold stepWDo at h
+  leaves h
+  all_goals (subst h; refine TInv_of_same (s := s) rfl rfl (by simp_all) ?_ hi; txsame)
+
+theorem TInv_stepWBlock {s s' : State}  (hi : TInv s) (h : stepWBlock s  = some s') : TInv s' := by
+  unfold stepWBlock at h
+  leaves h
+  all_goals (subst h; refine TInv_of_same (s := s) rfl rfl (by simp_all) ?_ hi; txsame)
+
+theorem TInv_stepCancelFlush {s s' : State} {k : Key} (hi : TInv s) (h : stepCancelFlush s k = some s') : TInv s' := by
+  unfold stepCancelFlush at h
+  leaves h
+  all_goals (subst h; refine TInv_of_same (s := s) rfl rfl (by simp_all) ?_ hi; txsame)
+
+theorem TInv_stepAppFlush {s s' : State} {slot : Nat} (hi : TInv s) (h : stepAppFlush s slot = some s') : TInv s' := by
+  unfold stepAppFlush at h
   leaves h
   all_goals (subst h; refine TInv_of_same (s := s) rfl rfl (by simp_all) ?_ hi; txsame)
 
